@@ -126,6 +126,7 @@ SHashOK(e) ==
           /\ (IF <<e.p, f>> \in DOMAIN hashes THEN hashes[<<e.p, f>>] = e.limbs ELSE TRUE)
           /\ (IF <<e.p, Neg(f)>> \in DOMAIN hashes THEN hashes[<<e.p, Neg(f)>>] = e.nlimbs ELSE TRUE)
           /\ (IF "climbs" \in DOMAIN e THEN e.climbs = e.limbs ELSE TRUE)
+          /\ (IF "nclimbs" \in DOMAIN e THEN e.nclimbs = e.nlimbs ELSE TRUE)                     \* cached hash of the negation
 SHashUpd(e) ==
   IF e.p = "32749" THEN hashes
   ELSE LET f == D(e, 1) IN (<<e.p, f>> :> e.limbs) @@ (<<e.p, Neg(f)>> :> e.nlimbs) @@ hashes
